@@ -7,7 +7,8 @@ CHECK = {
     "level": "model_checking",
     "rule": ("explicit-state BFS over the real Stepper<host> bookkeeping: transition = one Stepper "
              "call with p in {0,1,2} new primaries (max_events = 2; the two primaries of one call "
-             "belong to the two different events 0 and 1, the first event alternates from call to "
+             "belong to the two different events 0 and 1 (letters i1/i2) or both to the SAME event "
+             "(letter i3), the first event alternates from call to "
              "call; <= 3/4 primaries in total) and a complete outcome vector over the 11-letter "
              "alphabet {die,survive} x {0,1,2 secondaries gamma/e-} x {sub-cut} + 'unchanged' "
              "(secondaries span not rewritten) for the active tracks; states are histories replayed "
